@@ -189,3 +189,5 @@ def run(ctx):
     merge_level_cap(ctx, crate)
     pack_rule(ctx, crate)
     ctx.not_decided("coverage equality for all push sequences and capacities; fixpoint of pack; largest_lower_cell_sequence_len arithmetic (quantify over sequences)")
+    from rules import controls
+    controls.bits_controls(ctx)
